@@ -81,11 +81,15 @@ class Summaries:
             E["<%s as core::iter::Iterator>::nth" % it] = self.iter_nth
             E["<%s as core::iter::Iterator>::size_hint" % it] = self.iter_size_hint
             E["<%s as core::iter::ExactSizeIterator>::len" % it] = self.iter_len
+            E["<%s as core::iter::Iterator>::position" % it] = self.iter_position
+            E["<%s as core::iter::Iterator>::rposition" % it] = self.iter_position
         E["<core::iter::Enumerate<I> as core::iter::Iterator>::next"] = self.enumerate_assume
         E["<core::iter::Enumerate<I> as core::iter::Iterator>::nth"] = self.enumerate_assume
         E["core::iter::Iterator::zip"] = self.zip_new
         E["<core::iter::Zip<A, B> as core::iter::Iterator>::next"] = self.iter_next
         E["core::iter::Iterator::any"] = self.iter_any
+        E["core::iter::Iterator::position"] = self.iter_position
+        E["core::iter::Iterator::rposition"] = self.iter_position
         E["core::iter::Iterator::count"] = self.generic_count
         E["<core::iter::Skip<I> as core::iter::Iterator>::next"] = self.skip_next
         E["core::iter::range::<impl core::iter::Iterator for core::ops::Range<A>>::next"] = self.range_next
@@ -353,6 +357,31 @@ class Summaries:
             st.add_fact(r2, rem, 0)
             st.env[key] = new_obj(("iter", region, r2, None, rev, lin))
         return [(st, new_int(0, 1))]
+
+    def iter_position(self, st, fr, inst, t, callee, args):
+        """Iterator::position / rposition(&mut self, pred) on a slice iterator with a capture-free predicate: None, or Some(i) with
+        0 <= i < remaining; the iterator is left with an unknown smaller remainder"""
+        from .engine import Fields
+        f = args[1] if len(args) > 1 else None
+        if f is not None and not (isinstance(f, Fields) and not f.d):
+            return None
+        oa, key = self.iter_obj(st, args[0])
+        if oa is None or key is None:
+            return None
+        _, region, rem, pos0, rev, lin = G.obj[oa]
+        R = st.get_iv(rem)
+        out = []
+        s0 = st.copy()
+        s0.env[key] = new_obj(("iter", region, const_int(0), None, rev, lin))
+        out.append((s0, none()))
+        if R[1] >= 1 and st.set_iv(rem, max(R[0], 1), R[1]):
+            i = new_int(0, R[1] - 1)
+            st.add_fact(i, rem, -1)
+            r2 = new_int(0, R[1] - 1)
+            st.add_fact(r2, rem, -1)
+            st.env[key] = new_obj(("iter", region, r2, None, rev, lin))
+            out.append((st, some(i)))
+        return out
 
     def generic_count(self, st, fr, inst, t, callee, args):
         """Iterator::count on adaptors over one slice iterator with pure predicate closures: 0 <= count <= remaining"""
